@@ -12,7 +12,7 @@ for d in sorted(glob.glob(os.path.join(V, "seeded", "C*"))):
     notes = open(os.path.join(d, "notes.md")).read() if os.path.exists(os.path.join(d, "notes.md")) else ""
     res = json.load(open(os.path.join(d, "result.json"))) if os.path.exists(os.path.join(d, "result.json")) else {}
     title = next((l.lstrip("# ").strip() for l in notes.splitlines() if l.startswith("# ")), sid)
-    title = re.sub(r"^(Seed(ed)?\s+)?(change\s+)?C\d\d\s*[/ ]?\s*(seed\s*)?\(?(change\s*)?[a-h12]?\)?\s*[-—:]+\s*", "", title, flags=re.I)
+    title = re.sub(r"^(Seed(ed)?\s+)?(change\s+)?C\d\d\s*[/ ]?\s*(seed\s*)?\(?(change\s*)?[a-l12]?\)?\s*[-—:]+\s*", "", title, flags=re.I)
     m = re.search(r"^##[^\n]*(manifest|trigger|needs|When it)[^\n]*\n(.*?)(?=^## |\Z)", notes, flags=re.S | re.M | re.I)
     needs = re.sub(r"\s+", " ", m.group(2)).strip() if m else ""
     if not needs:
@@ -34,7 +34,7 @@ for d in sorted(glob.glob(os.path.join(V, "seeded", "C*"))):
         "check_exit_with_change": res.get("check_exit"), "detected": res.get("detected"), "caught_by_obligations": obs[:8],
         "suite_with_change": "whole suite at its baseline 32504 passed / 21 skipped (run by the seeding agent with the change applied; summary line in notes.md)",
         "reproduced_natively_by_replay": res.get("reproduced_natively"),
-        "round": {"a": 1, "b": 1, "c": 2, "d": 2, "e": 3, "f": 3, "g": 4, "h": 4}.get(sid.split("-")[-1]),
+        "round": {"a": 1, "b": 1, "c": 2, "d": 2, "e": 3, "f": 3, "g": 4, "h": 4, "i": 5, "j": 5, "k": 6, "l": 6}.get(sid.split("-")[-1]),
     }
     json.dump(meta, open(os.path.join(d, "meta.json"), "w"), indent=1)
     first = obs[0].split("/", 1)[1] if obs else "—"
